@@ -70,6 +70,14 @@ def stub_blackjax(rec):
         nuts_mod.nuts_kernel, hmc_mod.hmc_kernel = real_n, real_h
 
 
+def with_stub(fn, rec):
+    """fn executed with blackjax re-bound (tracing: verif_stub; spy mode: the real kernel, recorded)"""
+    def wrapped(*a, **k):
+        with stub_blackjax(rec):
+            return fn(*a, **k)
+    return wrapped
+
+
 def lp_ab(s):
     """coupled toy density over a (2,), b ()"""
     return -0.5 * jnp.sum((s["a"] - s["m"]) ** 2) * s["w"] - jnp.exp(s["b"]) + s["b"] * s["a"][0] * 0.5
